@@ -398,3 +398,262 @@ def C07(ctx):
         if not sync_or_stop(ctx, i, classes):
             break
     return dict(nontrivial=nontrivial, classes=classes)
+
+
+# ---------------------------------------------------------------------------------------------- C08
+def C08(ctx):
+    """History policies: the entry behaviours invoked on (re-)entry of a submachine and its active states afterwards
+    equal R-history (initial / last active / last active iff the entering event is listed), for the regions not named
+    by an explicit target."""
+    st = ctx.static
+    nontrivial = []
+    classes = Counter()
+    hist_machines = {nm for nm, m in st.machine.items() if m.get('history', 'none') != 'none'}
+    for i, c in enumerate(ctx.case):
+        if i >= len(ctx.sut):
+            break
+        def proj(toks):
+            out = {}
+            for t in toks:
+                p = parse(t)
+                if p and p[0] == 'en':
+                    o = tok_owner(ctx, p)
+                    out.setdefault(root_region_of(ctx, o) if o else None, []).append(t)
+            return out
+        ps, pm = proj(ctx.sut[i]), proj(ctx.model[i])
+        if ps != pm:
+            bad = [k for k in sorted(set(ps) | set(pm), key=str) if ps.get(k) != pm.get(k)][0]
+            fail('C08', 'entry behaviours in root region %s differ from the model' % (bad,), ctx, i,
+                 sut_seq=ps.get(bad), model_seq=pm.get(bad), ids_before=ids_before(ctx, i))
+        si, mi = ids_of(ctx.sut[i]), ids_of(ctx.model[i])
+        if si != mi:
+            # only the configuration of active machines is compared here
+            a = st.parse_ids(si) if si else {}
+            b = st.parse_ids(mi) if mi else {}
+            act = st.active_machines(a)
+            if any(a.get(m) != b.get(m) for m in act):
+                entered = {parse(t)[1] for t in ctx.sut[i] if parse(t) and parse(t)[0] == 'en'}
+                if entered & set(st.machine):
+                    fail('C08', 'active states after (re-)entry differ from the model', ctx, i, sut_ids=si, model_ids=mi)
+                classes['diverged_elsewhere'] += 1
+                break
+        before = st.parse_ids(ids_before(ctx, i)) if i > 0 else {}
+        for t in ctx.sut[i]:
+            p = parse(t)
+            if p and p[0] == 'en' and p[1] in hist_machines:
+                m = st.machine[p[1]]
+                init = [reg[0] for reg in m['regions']]
+                remembered = before.get(p[1], init)
+                classes['reentry_with_history_machine'] += 1
+                if remembered != init:
+                    h = m['history']
+                    evn = p[3].split('#')[0]
+                    listed = h == 'always' or evn in h.get('shallow', [])
+                    nontrivial.append((ctx.spec['id'], p[1], tuple(remembered), evn, tuple(x.split('/')[0] for x in ctx.sut[i] if x.startswith('en:'))))
+                    classes['restore_listed' if listed else 'restore_not_listed'] += 1
+                    tg = [r for r in st.machine[st.parent[p[1]]]['table'] if isinstance(r.get('tgt'), dict) and list(r['tgt'].values())[0][0] == p[1] and r['ev'] == evn]
+                    if tg:
+                        classes['explicit_entry_with_memory'] += 1
+    return dict(nontrivial=nontrivial, classes=classes)
+
+
+# ---------------------------------------------------------------------------------------------- C09
+def pseudo_keys(ctx):
+    """row keys of rows that use a pseudo construct, names of pseudo states, exit-point events per submachine"""
+    st = ctx.static
+    if hasattr(st, '_pseudo'):
+        return st._pseudo
+    rows = set()
+    for (nm, ri, kind, r, key) in st.rows:
+        if isinstance(r.get('tgt'), dict) or not isinstance(r['src'], str):
+            rows.add(key)
+        if isinstance(r.get('tgt'), str) and st.machine[nm]['states'][r['tgt']]['kind'] == 'exit_pt':
+            rows.add(key)
+        if isinstance(r['src'], str) and st.machine[nm]['states'][r['src']]['kind'] == 'entry_pt':
+            rows.add(key)
+    names = {s for s, (nm, ri) in st.state_owner.items() if st.machine[nm]['states'][s]['kind'] in ('entry_pt', 'exit_pt', 'explicit')}
+    exit_events = {}
+    for nm, m in st.machine.items():
+        for s, sd in m['states'].items():
+            if sd['kind'] == 'exit_pt':
+                exit_events.setdefault(nm, set()).add(sd['event'])
+    st._pseudo = (rows, names, exit_events)
+    return st._pseudo
+
+
+def C09(ctx):
+    """Explicit entry, fork, entry point, exit point: steps that touch a pseudo construct must equal the model token
+    for token (states entered, order, the event every behaviour receives, outer exit-point row only while the exit
+    point is active)."""
+    st = ctx.static
+    rows, names, exit_events = pseudo_keys(ctx)
+    nontrivial = []
+    classes = Counter()
+    for i, c in enumerate(ctx.case):
+        if i >= len(ctx.sut):
+            break
+        touches = None
+        for toks in (ctx.sut[i], ctx.model[i]):
+            for t in toks:
+                p = parse(t)
+                if not p:
+                    continue
+                if p[0] in ('en', 'ex') and p[1] in names:
+                    touches = touches or 'pseudo_state'
+                elif p[0] == 'g' and st.atom_owner.get(p[1], (0, 0, None))[2] in rows:
+                    touches = touches or 'pseudo_row'
+                elif p[0] == 'a' and st.action_owner.get(p[1], (0, 0, None))[2] in rows:
+                    touches = touches or 'pseudo_row'
+        if c['op'] == 'P' and not touches and i > 0:
+            evn = ctx.spec['events'][c['ev']]['name']
+            before = st.parse_ids(ids_before(ctx, i))
+            for nm in st.active_machines(before):
+                if evn in exit_events.get(nm, ()) and not any(
+                        st.machine[nm]['states'][s]['kind'] == 'exit_pt' for s in before.get(nm, [])):
+                    touches = 'exit_event_from_outside'
+        if touches:
+            core_s = [t for t in ctx.sut[i] if not t.startswith('ids{')]
+            core_m = [t for t in ctx.model[i] if not t.startswith('ids{')]
+            if core_s != core_m:
+                k = 0
+                while k < min(len(core_s), len(core_m)) and core_s[k] == core_m[k]:
+                    k += 1
+                fail('C09', 'step through a pseudo state differs from the model at token %d (%s vs %s)' %
+                     (k, core_s[k] if k < len(core_s) else '<end>', core_m[k] if k < len(core_m) else '<end>'), ctx, i,
+                     ids_before=ids_before(ctx, i), touches=touches)
+            if ids_of(ctx.sut[i]) != ids_of(ctx.model[i]):
+                a, b = st.parse_ids(ids_of(ctx.sut[i])), st.parse_ids(ids_of(ctx.model[i]))
+                act = st.active_machines(a)
+                if any(a.get(m) != b.get(m) for m in act):
+                    fail('C09', 'active configuration after a pseudo-state step differs from the model', ctx, i,
+                         sut_ids=ids_of(ctx.sut[i]), model_ids=ids_of(ctx.model[i]))
+            classes[touches] += 1
+            nontrivial.append((ctx.spec['id'], ids_before(ctx, i), c.get('ev'), tuple(t.split('#')[0] for t in core_s)))
+        if not sync_active(ctx, i, classes):
+            break
+    return dict(nontrivial=nontrivial, classes=classes)
+
+
+def sync_active(ctx, i, classes):
+    """model and SUT agree on the configuration of all *active* machines after op i"""
+    st = ctx.static
+    si, mi = ids_of(ctx.sut[i]), ids_of(ctx.model[i])
+    if si == mi:
+        return True
+    if not si or not mi:
+        classes['diverged_elsewhere'] += 1
+        return False
+    a, b = st.parse_ids(si), st.parse_ids(mi)
+    if any(a.get(m) != b.get(m) for m in st.active_machines(a)) or st.active_machines(a) != st.active_machines(b):
+        classes['diverged_elsewhere'] += 1
+        return False
+    return True
+
+
+# ---------------------------------------------------------------------------------------------- C10
+def eval_expr(g, val):
+    if g is None:
+        return True
+    if g[0] == 'g':
+        return bool((val >> g[1]) & 1)
+    if g[0] == 'not':
+        return not eval_expr(g[1], val)
+    if g[0] == 'and':
+        return eval_expr(g[1], val) and eval_expr(g[2], val)
+    return eval_expr(g[1], val) or eval_expr(g[2], val)
+
+
+def C10(ctx):
+    """Completion transitions: per (machine, region) the completion behaviours equal the model; completion work precedes
+    every other pending occurrence (event-run order equals the model's); no_transition never carries a completion
+    event; at every quiescent point no active simple state has an enabled completion transition left un-fired
+    (model-free, uses the frozen guard values)."""
+    st = ctx.static
+    nontrivial = []
+    classes = Counter()
+    frozen = 0
+    cg = S.completion_guard_atoms(ctx.spec)
+    by_state = {}
+    for a, s in cg.items():
+        by_state.setdefault(s, []).append(a)
+    blocked_kinds = ('terminate', 'interrupt')
+    for i, c in enumerate(ctx.case):
+        if i >= len(ctx.sut):
+            break
+        val = c.get('val', 0)
+        toks = ctx.sut[i]
+        for t in toks:
+            p = parse(t)
+            if p and p[0] == 'en':
+                for a in by_state.get(p[1], ()):
+                    frozen = (frozen & ~(1 << a)) | (val & (1 << a))
+            if p and p[0] == 'nt' and p[3] == 'none':
+                fail('C10', 'no_transition reported for a completion event', ctx, i)
+        def proj(tk):
+            out = {}
+            for t in tk:
+                p = parse(t)
+                if p and p[0] in ('g', 'a', 'en', 'ex') and p[3] == 'none':
+                    o = tok_owner(ctx, p)
+                    if o:
+                        # attribute to the region of the machine owning the completion row: for en/ex of nested states
+                        # use the chain element at the level of the row; simplest stable key: root region + machine
+                        out.setdefault(o, []).append(t)
+            return out
+        ps, pm = proj(toks), proj(ctx.model[i])
+        if ps != pm:
+            bad = [k for k in sorted(set(ps) | set(pm), key=str) if ps.get(k) != pm.get(k)][0]
+            fail('C10', 'completion behaviours of %s differ from the model' % (bad,), ctx, i,
+                 sut_seq=ps.get(bad), model_seq=pm.get(bad), ids_before=ids_before(ctx, i))
+        def runs(tk):
+            out = []
+            for t in tk:
+                p = parse(t)
+                if p and p[0] in ('g', 'a', 'en', 'ex', 'nt'):
+                    if not out or out[-1] != p[3]:
+                        out.append(p[3])
+            return out
+        rs, rm = runs(toks), runs(ctx.model[i])
+        if rs != rm:
+            fail('C10', 'order of completion work relative to other occurrences %s differs from the model %s' % (rs, rm), ctx, i)
+        # quiescence: nothing enabled is left un-fired
+        idt = ids_of(toks)
+        if idt and c['op'] in ('S', 'P', 'X') and not any(t.startswith(('ESCAPED', '!throw')) for t in toks):
+            ids = st.parse_ids(idt)
+            running = not (c['op'] == 'T')
+            for nm in st.active_machines(ids):
+                m = st.machine[nm]
+                if any(m['states'][s]['kind'] in blocked_kinds for s in ids.get(nm, []) if s in m['states']):
+                    continue
+                for s in ids.get(nm, []):
+                    if s not in m['states'] or m['states'][s]['kind'] != 'simple':
+                        continue
+                    for r in m['table']:
+                        if r['src'] == s and r['ev'] is None and eval_expr(r.get('guard'), frozen):
+                            fail('C10', 'state %s is active at a quiescent point although its completion transition is enabled' % s,
+                                 ctx, i, sig='completion_left_pending_after_single_step' if c['op'] == 'X' and c.get('mode') == 's' else None)
+        # non-triviality
+        if 'none' in rs:
+            chain = Counter()
+            for o, seq in ps.items():
+                chain[o] += sum(1 for t in seq if t.startswith('ex:'))
+            gsrc = Counter()
+            for t in toks:
+                p = parse(t)
+                if p and p[0] == 'g' and p[3] == 'none':
+                    gsrc[cg.get(p[1])] += 1
+            cls = []
+            if len(rs) > rs.index('none') + 1:
+                cls.append('completion_with_other_pending')
+            if any(v >= 2 for v in chain.values()):
+                cls.append('chain')
+            if any(v >= 2 for v in gsrc.values()):
+                cls.append('conflict')
+            for k in cls:
+                classes[k] += 1
+            if cls:
+                nontrivial.append((ctx.spec['id'], ids_before(ctx, i), c.get('ev'), tuple(t.split('#')[0] for t in toks if '/none' in t), tuple(rs and [x.split('#')[0] for x in rs])))
+        classes['steps'] += 1
+        if not sync_active(ctx, i, classes):
+            break
+    return dict(nontrivial=nontrivial, classes=classes)
